@@ -804,8 +804,51 @@ def rule_r22(repo):
     return res
 
 
+def rule_r23(repo):
+    """A step of a veriT proof is checked against what the proof *says about that step*: its clause, its premises, its
+    arguments and the context recorded with it by the parser (`step.cur_ctx`; empty outside every subproof).  The
+    reconstruction object also carries running state - fields that are rebound while the steps go by (the context /
+    identifier of the last anchor seen).  That state describes where the traversal has been, not the step: nothing of it
+    may flow into the arguments or premises a rule is called with.  (`step.cur_ctx or self.ctx` reads "no context" where
+    the step has the empty context, and a refl step behind a closed subproof is judged under that subproof's bindings.)"""
+    from ..inline import inlined
+    from ..flow import flow_of
+    res = RuleResult('C18.R23', 'the arguments and premises of a reconstructed step come from the step, never from the running state of the traversal', floor=4)
+    cls = repo.cls('smt/veriT/proof_rec.py', 'ProofReconstruction')
+    running = set()
+    for name, f in cls.methods.items():
+        if name == '__init__':
+            continue
+        for n in ast.walk(f.node):
+            if isinstance(n, (ast.Assign, ast.AugAssign)):
+                for t in (n.targets if isinstance(n, ast.Assign) else [n.target]):
+                    if isinstance(t, ast.Attribute) and is_name(t.value, 'self'):
+                        running.add(t.attr)
+    need(running, 'ProofReconstruction: no field is rebound outside __init__ (running state not found)')
+    f = need(cls.methods.get('validate_step'), 'ProofReconstruction.validate_step not found')
+
+    def reads_state(h):
+        return h.cls is cls and h.name != 'validate_step' and any(
+            isinstance(a, ast.Attribute) and is_name(a.value, 'self') and a.attr in running and isinstance(a.ctx, ast.Load) for a in ast.walk(h.node))
+    g = inlined(f, reads_state)[0]
+    flow = flow_of(g.node)
+    calls = [c for c in ast.walk(g.node) if isinstance(c, ast.Call) and call_name(c) == 'ProofTerm' and len(c.args) >= 3]
+    need(calls, 'validate_step: construction of the step\'s proof term not found')
+    for k, c in enumerate(sorted(calls, key=lambda c: c.lineno)):
+        for what, e in (('arguments@%d' % k, c.args[1]), ('premises@%d' % k, c.args[2])):
+            roots = flow.resolve(e)
+            bad = sorted(r for r in roots if any(r == 'self.' + a or r.startswith('self.' + a + '.') or r.startswith('self.' + a + '[') or r.startswith('self.' + a + '{')
+                                                   for a in running))
+            res.add('smt/veriT/proof_rec.py :: ProofReconstruction.validate_step :: %s-from-the-step' % what, not bad,
+                    'derived from the step and from tables indexed by its identifiers' if not bad else
+                    'the %s of a step can come from `%s`, which is rebound as the traversal passes anchors: a step outside every subproof is checked '
+                    'under the context of the last subproof that was closed' % (what, bad[0]), '%s:%d' % ('smt/veriT/proof_rec.py', c.lineno))
+    res.info['running_state'] = sorted(running)
+    return res
+
+
 def rules(repo):
     r1 = mr.zip_rule(repo, 'C18.R1', mr.verit_eval_side_functions(repo), floor=9)
     r2 = mr.hyps_rule(repo, 'C18.R2', mr.verit_macros, floor=80)
     return [r1, r2, rule_r3(repo), rule_r4(repo), rule_r5(repo), rule_r6(repo), rule_r7(repo), rule_r8(repo), rule_r9(repo), rule_r10(repo), rule_r11(repo), mr.expansion_uses_rule(repo, 'C18.R12', mr.verit_macros, floor=15), rule_r13(repo), rule_r14(repo),
-            rule_r15(repo), rule_r16(repo), rule_r17(repo), rule_r18(repo), rule_r19(repo), rule_r20(repo), rule_r21(repo), rule_r22(repo)]
+            rule_r15(repo), rule_r16(repo), rule_r17(repo), rule_r18(repo), rule_r19(repo), rule_r20(repo), rule_r21(repo), rule_r22(repo), rule_r23(repo)]
